@@ -128,6 +128,7 @@ void prop_gen(Ctx &c) {
 	setenv("RC_PARAMS", params.c_str(), 1);
 	auto gen = rgen::rule_case(true);
 	rc::check("C01", [&]() {
+		if (c.shrink_exhausted()) return;
 		rgen::RuleCase g = *gen;
 		Case cs;
 		if (!concretise(g, cs, K)) { c.st.extra["unsynchronisable_or_too_sparse"]++; RC_DISCARD("no synchronised DTSTART"); }
